@@ -6,9 +6,29 @@ import random
 
 
 def sub_seed(seed: int, *tags) -> int:
-    """independent 31-bit seed derived from the case seed (process-independent: sha256, not hash())"""
+    """independent 31-bit seed derived from the case seed (process-independent: sha256, not hash()).
+    One derived seed in eight is 0 and one in sixteen is 1: perfectly valid seeds that look falsy / trivial (a library
+    test `if not seed` / `seed or default` would treat 0 as "unseeded")."""
     h = hashlib.sha256(repr((seed,) + tuple(tags)).encode()).digest()
+    if h[4] % 8 == 0:
+        return 0
+    if h[4] % 16 == 1:
+        return 1
     return int.from_bytes(h[:4], "big") & 0x7FFFFFFF
+
+
+# ----------------------------------------------------------------------------- shared configuration objects
+_SHARED: dict = {}
+
+
+def shared(key: str, value):
+    """The SAME list / dict object for equal (`key`, `value`) in every build of this interpreter — the way a model
+    module passes a module-level constant (NODES = [...]) to every build.  A component that mutates its argument in
+    place (shuffle, sort, pop, setdefault) thereby changes what the next build in the process receives; the harness
+    itself never mutates these objects."""
+    import json
+
+    return _SHARED.setdefault((key, json.dumps(value, sort_keys=True, default=str)), value)
 
 
 def seed_all(seed: int) -> None:
